@@ -710,7 +710,9 @@ def formula_grammar(table):
     element = element.setParseAction(convert_element)
 
     # Convert "count elements" to a pair
-    implicit_group = count+OneOrMore(element)
+    # Note: white space ends the group; otherwise the count in "2H2O NaCl"
+    # would apply to NaCl as well.
+    implicit_group = count + element + ZeroOrMore(~White() + element)
     def convert_implicit(string, location, tokens):
         """convert count followed by fragment"""
         #print "implicit", tokens
